@@ -89,6 +89,10 @@ pub struct Shape {
     /// helpers already asked in the probe round in flight (concrete: a
     /// symbolic-length Vec makes later pushes intractable)
     pub n_ind: usize,
+    /// concrete renew mode of the own identity (None = symbolic)
+    pub renew: Option<RenewMode>,
+    /// concrete num_indirect_probes (None = symbolic 1..=2)
+    pub fanout: Option<usize>,
 }
 
 impl Shape {
@@ -101,17 +105,25 @@ impl Shape {
             custom: 0,
             handler_arb: false,
             n_ind: 0,
+            renew: None,
+            fanout: None,
         }
     }
 }
 
 pub fn arb_foca(s: &mut impl Src, sh: Shape) -> F {
     let mut identity = Id::arb(s);
-    identity.renew = Id::arb_renew(s);
+    identity.renew = match sh.renew {
+        Some(r) => r,
+        None => Id::arb_renew(s),
+    };
     let incarnation = s.u16();
     let timer_token = s.u8();
     let connection_state = arb_conn(s);
-    let config = arb_config(s, sh.pkt);
+    let mut config = arb_config(s, sh.pkt);
+    if let Some(n) = sh.fanout {
+        config.num_indirect_probes = nz(n);
+    }
 
     // --- membership records -------------------------------------------------
     let mut inner: Vec<Member<Id>> = Vec::with_capacity(sh.k + 2);
@@ -267,6 +279,17 @@ pub fn arb_foca(s: &mut impl Src, sh: Shape) -> F {
 // ---------------------------------------------------------------------------
 // Invariant as a checkable predicate (post-states)
 // ---------------------------------------------------------------------------
+
+/// I3 on its own (C09 and C19 both rest on it)
+pub fn own_addr_never_active(f: &F) -> bool {
+    let mut ok = true;
+    for m in f.members.inner.iter() {
+        if m.id().addr == f.identity.addr && m.state() != State::Down {
+            ok = false;
+        }
+    }
+    ok
+}
 
 pub fn inv_holds(f: &F) -> bool {
     let recs = &f.members.inner;
